@@ -88,7 +88,15 @@ def check_roundtrip(smt2, seed=0, timeout=None):
     """Same query re-parsed from SMT-LIB text: a different internal term order; de-flakes E-matching /
     non-linear arithmetic, whose success depends on incidental ordering."""
     t0 = time.time()
-    s = _mk_solver(True, seed, timeout)
+    # default solver pipeline (simplify, solve-eqs, ... before the SMT core) with MBQI off: on these queries the
+    # preprocessing is worth an order of magnitude over the bare core used for the first attempt
+    s = z3.Solver()
+    s.set('smt.mbqi', False)
+    s.set('smt.auto_config', False)
+    s.set('timeout', timeout or TIMEOUT_MS)
+    s.set('rlimit', RLIMIT)
+    if seed:
+        s.set('smt.random_seed', seed)
     try:
         s.add(z3.parse_smt2_string(smt2))
     except z3.Z3Exception:
@@ -118,10 +126,45 @@ def check_cli(smt2: str, which='cvc5', timeout_s=30):
 
 
 PORTFOLIO_MS = [int(x) for x in os.environ.get('PYVC_PORTFOLIO_MS', '4000,4000,8000,8000,20000').split(',')]
+# second round for obligations the first round leaves open (E-matching proofs depend on the seed and on the
+# term order: an obligation that is true is usually found by some configuration; a false one exhausts them all)
+PORTFOLIO2_MS = [int(x) for x in os.environ.get('PYVC_PORTFOLIO2_MS', '30000,30000,45000,45000').split(',') if x]
 
 
-def discharge(ob, cross_check=False):
-    """Portfolio: only `unsat` from some configuration discharges; nothing else is interpreted."""
+def discharge(ob, cross_check=False, short=False):
+    if getattr(ob, 'cases', None):
+        return discharge_by_cases(ob, cross_check, short)
+    return _discharge(ob, cross_check, short)
+
+
+def discharge_by_cases(ob, cross_check, short):
+    """Proof by cases: for every truth assignment of ob.cases, replace the case terms by constants in all
+    hypotheses and the goal, simplify, and discharge; the obligation holds iff every case is discharged."""
+    import copy
+    import itertools
+    total, backends = 0.0, []
+    for vals in itertools.product([True, False], repeat=len(ob.cases)):
+        sub = [(c, z3.BoolVal(v)) for c, v in zip(ob.cases, vals)]
+        sb = copy.copy(ob)
+        sb.cases = ()
+        sb.hyps = [h2 for h2 in (z3.simplify(z3.substitute(h, *sub)) for h in ob.hyps) if not z3.is_true(h2)]
+        sb.goal = z3.simplify(z3.substitute(ob.goal, *sub))
+        if z3.is_true(sb.goal) or any(z3.is_false(h) for h in sb.hyps):
+            continue
+        _discharge(sb, cross_check, short)
+        total += sb.time_s
+        backends.append(sb.backend)
+        if sb.status != 'discharged':
+            ob.status, ob.reason, ob.backend, ob.time_s, ob.model = sb.status, sb.reason + f' [case {vals}]', sb.backend, total, sb.model
+            ob.exhausted = getattr(sb, 'exhausted', False)
+            return ob
+    ob.status, ob.backend, ob.time_s = 'discharged', '+'.join(sorted(set(backends))) + ' by-cases' if backends else 'by-cases', total
+    return ob
+
+
+def _discharge(ob, cross_check=False, short=False):
+    """Portfolio: only `unsat` from some configuration discharges; nothing else is interpreted.
+    short=True (a previous obligation of the same function already exhausted the portfolio): first round only."""
     fs, ng = build(ob)
     q = has_quantifier(fs + [ng])
     if not q:
@@ -138,16 +181,25 @@ def discharge(ob, cross_check=False):
     total = 0.0
     smt2 = None
     last_reason = ''
-    for k, ms in enumerate(PORTFOLIO_MS):
-        if k % 2 == 0:
-            r, _, reason, dt, s = check_z3(fs, ng, True, want_model=False, seed=k, timeout=ms)
+    # round 1: alternating configurations with short budgets; round 2 (unless `short`): the SAME configurations
+    # with four times the budget, latest first -- a proof that exists is deterministic in (configuration, seed),
+    # so what succeeded once succeeds again however busy the machine is
+    plan = [('api' if k % 2 == 0 else 'pre', k - (k % 2), ms) for k, ms in enumerate(PORTFOLIO_MS)]
+    if not short and os.environ.get('PYVC_FAST') != '1':
+        plan += [(kind, seed, 4 * ms) for kind, seed, ms in reversed(plan)]
+    ob.exhausted = False
+    for k, (kind, seed, ms) in enumerate(plan):
+        if kind == 'api':
+            r, _, reason, dt, s = check_z3(fs, ng, True, want_model=False, seed=seed, timeout=ms)
             if smt2 is None:
                 smt2 = s.to_smt2()
-            backend = f'z3-ematch' if k == 0 else f'z3-ematch(seed={k})'
+            backend = f'z3-ematch' if seed == 0 else f'z3-ematch(seed={seed})'
         else:
-            r, dt = check_roundtrip(smt2, seed=k, timeout=ms)
+            if smt2 is None:
+                continue
+            r, dt = check_roundtrip(smt2, seed=seed, timeout=ms)
             reason = ''
-            backend = f'z3-ematch(reparsed,seed={k})'
+            backend = f'z3-ematch(preprocessed,seed={seed})'
         total += dt
         if r == 'unsat':
             ob.status, ob.backend, ob.time_s = 'discharged', backend, total
@@ -156,6 +208,8 @@ def discharge(ob, cross_check=False):
         last_reason = reason or last_reason
         if reason.startswith('(incomplete') and k >= 2:
             break       # E-matching saturated twice: more seeds will not help
+    else:
+        ob.exhausted = True
     ob.status, ob.reason, ob.backend, ob.time_s = 'unknown', last_reason, 'z3-ematch', total
     r2, reason2, dt2 = check_z3_mbqi(fs, ng)
     ob.time_s += dt2
